@@ -119,7 +119,12 @@ func (e *Engine) binop(st *State, op token.Token, a, b Value, ta, tb types.Type)
 			return one(st, t.Cmp(OpULe, y, x))
 		}
 		panic(e.abort("int binop %s", op))
+	case *SymFloatV:
+		return e.symFloatOp(st, op, x, b)
 	case FloatV:
+		if sf, ok := b.(*SymFloatV); ok {
+			return e.symFloatOp(st, flipCmp(op), sf, x)
+		}
 		y, ok := b.(FloatV)
 		if !ok {
 			panic(e.abort("float binop with %T", b))
@@ -412,6 +417,14 @@ func (e *Engine) convert(st *State, v Value, from, to types.Type) []Outcome {
 			panic(e.abort("uintptr -> unsafe.Pointer"))
 		}
 	}
+	if sf, ok := v.(*SymFloatV); ok {
+		if isFloat(to) {
+			return one(st, sf)
+		}
+		if w, _, ok := e.width(to); ok && w > 0 {
+			return one(st, t.Resize(sf.I, w, true))
+		}
+	}
 	if f, ok := v.(FloatV); ok {
 		if isFloat(to) {
 			if b := tu.(*types.Basic); b.Kind() == types.Float32 {
@@ -438,12 +451,7 @@ func (e *Engine) convert(st *State, v Value, from, to types.Type) []Outcome {
 		if sl, ok := tu.(*types.Slice); ok {
 			eb, _ := sl.Elem().Underlying().(*types.Basic)
 			if eb != nil && eb.Kind() == types.Uint8 {
-				el := make([]Value, len(x.B))
-				for i, b := range x.B {
-					el[i] = b
-				}
-				id := e.alloc(st, &ArrayV{E: el})
-				return one(st, &SliceV{Obj: id, N: x.N, Cap: len(el)})
+				return one(st, e.newByteSlice(st, x))
 			}
 			if eb != nil && eb.Kind() == types.Int32 {
 				var outs []Outcome
@@ -505,6 +513,9 @@ func (e *Engine) sliceToStr(st *State, s *SliceV) *StrV {
 	if s.IsNil() {
 		return e.StrConst("")
 	}
+	if d, ok := e.get(st, s.Obj).(*JDocV); ok {
+		return &StrV{N: d.Len, Doc: d}
+	}
 	arr := getPath(e.get(st, s.Obj), s.Path).(*ArrayV)
 	n := s.Cap
 	if c, ok := constInt(s.N); ok {
@@ -548,6 +559,10 @@ func (e *Engine) sliceElem(st *State, s *SliceV, i int) Value {
 
 // newByteSlice allocates a fresh []byte holding the string bytes.
 func (e *Engine) newByteSlice(st *State, s *StrV) *SliceV {
+	if s.Doc != nil {
+		id := e.alloc(st, s.Doc)
+		return &SliceV{Obj: id, N: s.Doc.Len, Cap: 1 << 30}
+	}
 	el := make([]Value, len(s.B))
 	for i, b := range s.B {
 		el[i] = b
@@ -690,4 +705,83 @@ func (e *Engine) decodeAll(st *State, s *StrV) []decodedAll {
 		rec(cs.st, 0, nil)
 	}
 	return res
+}
+
+func flipCmp(op token.Token) token.Token {
+	switch op {
+	case token.LSS:
+		return token.GTR
+	case token.GTR:
+		return token.LSS
+	case token.LEQ:
+		return token.GEQ
+	case token.GEQ:
+		return token.LEQ
+	}
+	return op
+}
+
+// symFloatOp: comparisons of an integer-valued symbolic float with a constant or another integer-valued float.
+func (e *Engine) symFloatOp(st *State, op token.Token, x *SymFloatV, b Value) []Outcome {
+	t := e.tb
+	var lo, hi *Term // b as integer bounds: x < b  <=>  x < hi ... computed per op
+	switch y := b.(type) {
+	case *SymFloatV:
+		lo, hi = y.I, y.I
+		switch op {
+		case token.EQL:
+			return one(st, t.Eq(x.I, y.I))
+		case token.NEQ:
+			return one(st, t.Ne(x.I, y.I))
+		case token.LSS:
+			return one(st, t.Cmp(OpSLt, x.I, y.I))
+		case token.LEQ:
+			return one(st, t.Cmp(OpSLe, x.I, y.I))
+		case token.GTR:
+			return one(st, t.Cmp(OpSLt, y.I, x.I))
+		case token.GEQ:
+			return one(st, t.Cmp(OpSLe, y.I, x.I))
+		}
+	case FloatV:
+		f := float64(y)
+		if math.IsNaN(f) {
+			return one(st, t.Bool(op == token.NEQ))
+		}
+		if f >= 9.3e18 || f <= -9.3e18 {
+			switch op {
+			case token.EQL:
+				return one(st, t.False)
+			case token.NEQ:
+				return one(st, t.True)
+			case token.LSS, token.LEQ:
+				return one(st, t.Bool(f > 0))
+			default:
+				return one(st, t.Bool(f < 0))
+			}
+		}
+		fl, ce := int64(math.Floor(f)), int64(math.Ceil(f))
+		integral := fl == ce
+		switch op {
+		case token.EQL:
+			if !integral {
+				return one(st, t.False)
+			}
+			return one(st, t.Eq(x.I, t.Int64(fl)))
+		case token.NEQ:
+			if !integral {
+				return one(st, t.True)
+			}
+			return one(st, t.Ne(x.I, t.Int64(fl)))
+		case token.LSS: // x < f  <=> x < ceil(f)
+			return one(st, t.Cmp(OpSLt, x.I, t.Int64(ce)))
+		case token.LEQ: // x <= f <=> x <= floor(f)
+			return one(st, t.Cmp(OpSLe, x.I, t.Int64(fl)))
+		case token.GTR: // x > f <=> x > floor(f)
+			return one(st, t.Cmp(OpSLt, t.Int64(fl), x.I))
+		case token.GEQ:
+			return one(st, t.Cmp(OpSLe, t.Int64(ce), x.I))
+		}
+	}
+	_, _ = lo, hi
+	panic(e.abort("unsupported float operation %s on integer-valued symbolic float", op))
 }
